@@ -223,6 +223,47 @@ fn run(c: &mut Ctx) {
         return;
     }
     tcp_subcheck(c);
+    volume_cases(c);
+}
+
+/// deterministic volume cases: very many consecutive unusable lines, one very long line (counters / buffers that
+/// overflow or latch only after a large amount of junk)
+fn volume_cases(c: &mut Ctx) {
+    let f1 = crate::bits::df11(0x4840D6, 5, 0).hex().into_bytes();
+    let f2 = crate::bits::df4(0x4840D6, crate::bits::ac13_q1(1000), 0).hex().into_bytes();
+    let f3 = crate::bits::df11(0xA12345, 5, 0).hex().into_bytes();
+    let mut cases: Vec<(String, Vec<Vec<u8>>)> = Vec::new();
+    // 70 000 consecutive junk lines (more than 2^16), between frames
+    let mut l = vec![f1.clone()];
+    l.extend(std::iter::repeat(Vec::new()).take(70_000));
+    l.push(f2.clone());
+    l.push(f3.clone());
+    cases.push(("70000 empty lines between frames".into(), l));
+    let mut l = vec![f1.clone()];
+    l.extend((0..70_000u32).map(|i| format!("junk {}", i).into_bytes()));
+    l.push(f2.clone());
+    l.push(f3.clone());
+    cases.push(("70000 text lines between frames".into(), l));
+    // one line of 5 MiB and one of 17 MiB (thorough), then frames
+    for mib in if c.tier == crate::ctx::Tier::Thorough { vec![5usize, 17] } else { vec![5usize] } {
+        let mut l = vec![f1.clone(), vec![b'x'; mib << 20], f2.clone(), f3.clone()];
+        l.push(vec![b'z'; 100]);
+        cases.push((format!("a {} MiB line between frames", mib), l));
+    }
+    for (i, (name, lines)) in cases.into_iter().enumerate() {
+        if !c.mine(i as u64 + 7) {
+            continue;
+        }
+        let m = Mixed { opts: Opts::quiet(), lines, crlf: false, no_final_newline: false };
+        c.eval(1);
+        c.class("volume_case");
+        c.nontrivial(&name);
+        if let Err(e) = check(&m) {
+            if !c.failed() {
+                c.fail(format!("{}: {}", name, e), "c13:volume", json!({"kind":"volume","name":name}));
+            }
+        }
+    }
 }
 
 fn tcp_subcheck(c: &mut Ctx) {
@@ -254,6 +295,10 @@ fn replay(c: &mut Ctx, case: &Value) {
         if let Err((p, m)) = r {
             c.fail(format!("[{}] {}", p, m), "fuzz:artifact", case.clone());
         }
+        return;
+    }
+    if case["kind"].as_str() == Some("volume") {
+        volume_cases(c);
         return;
     }
     if case["kind"].as_str() == Some("tcp") {
